@@ -283,7 +283,8 @@ func ZZ_C04_labelAfterPromotion() {
 // nodes served by the active replica set foo-old, spec.template just changed, canary replicas
 // 50% (= 2 of the 4 targeted nodes) or the integer 2.  Then a symbolic schedule of k steps, each
 // running one real reconcile — the ExtendedDaemonSet, the active replica set, or the canary
-// replica set (once it exists) — with the clock standing still (so a replica set that synced is
+// replica set (once it exists) — or a kubelet step (created pods become Ready, one minute passes);
+// without kubelet steps the clock stands still (so a replica set that synced is
 // gated by reconcileFrequency, as in a burst of events).  After every step the list holds at most
 // two distinct nodes, and once selected its length never exceeds two.
 func ZZ_C04_listUnderSchedules() {
@@ -332,9 +333,19 @@ func ZZ_C04_listUnderSchedules() {
 	c.EDS = append(c.EDS, ds)
 	edsRec, _ := edsctrl.NewReconciler(edsctrl.ReconcilerOptions{DefaultValidationMode: datadoghqv1alpha1.ExtendedDaemonSetSpecStrategyCanaryValidationModeAuto}, c, c.Scheme(), logr.Logger{}, &fakeapi.Recorder{})
 
+	tB := tpl("B")
+	hashB, _ := comparison.GenerateMD5PodTemplateSpec(&tB)
 	maxSeen := 0
+	seenLog := 0
 	for s := 0; s < steps; s++ {
-		switch nondet.String("step"+strconv.Itoa(s), "eds", "active-rs", "canary-rs") {
+		// the canary list the controllers can see while this step runs
+		var listBefore []string
+		if c.EDS[0].Status.Canary != nil {
+			listBefore = append(listBefore, c.EDS[0].Status.Canary.Nodes...)
+		}
+		switch nondet.String("step"+strconv.Itoa(s), "eds", "active-rs", "canary-rs", "kubelet") {
+		case "kubelet":
+			zzKubelet(c)
 		case "eds":
 			_, _ = edsRec.Reconcile(context.TODO(), reconcile.Request{NamespacedName: types.NamespacedName{Namespace: zzNS, Name: zzEDSName}})
 		case "active-rs":
@@ -352,6 +363,23 @@ func ZZ_C04_listUnderSchedules() {
 			_, _ = zzReconcile(zzReconciler(c, false), zzNS, name)
 		}
 		cur := c.EDS[0]
+		// "pods built from the new template are created only on the nodes listed in status.canary.nodes";
+		// no node ever holds two daemon pods; the active replica set stays active (one-hour canary, no validation)
+		for _, e := range c.Log[seenLog:] {
+			if e.Kind == "Pod" && e.Verb == "create" {
+				p := e.Obj.(*corev1.Pod)
+				if p.Annotations[datadoghqv1alpha1.MD5ExtendedDaemonSetAnnotationKey] == hashB {
+					nondet.Assert("C04.sched.new-template-only-on-canary-nodes", zzInList(listBefore, e.Node))
+				}
+			}
+		}
+		seenLog = len(c.Log)
+		perNode := map[string]int{}
+		for _, p := range c.Pods {
+			perNode[fakeapi.PodNode(p)]++
+			nondet.Assert("C04.sched.one-pod-per-node", perNode[fakeapi.PodNode(p)] <= 1)
+		}
+		nondet.Assert("C04.sched.not-promoted", cur.Status.ActiveReplicaSet == "foo-a")
 		if cur.Status.Canary != nil {
 			n := len(cur.Status.Canary.Nodes)
 			if n > maxSeen {
